@@ -4,6 +4,7 @@ import HtpModel.Lemmas.BufInv
 import HtpModel.Lemmas.OutInv
 import HtpModel.Lemmas.OwedOut
 import HtpModel.Pinned.Eq
+import HtpModel.Lemmas.History
 
 namespace Htp.C10
 open Htp.Conn Htp.Gen
@@ -147,6 +148,27 @@ theorem C10_req_call_buffer_bounded_inv (cfg : Cfg) (d : Bytes) (c : Conn) (hs :
     (hcl : ClAtDecision cfg (reqWakeOther (reqStoreChunk (some d) d.length c))) :
     inBufLen (reqData cfg (some d) d.length c).1 ≤ cfg.fieldLimitHard ∧ OwedPos (reqData cfg (some d) d.length c).1 :=
   reqData_invariant cfg d c hs hb h0 hcl
+
+/-- **C10 (request direction, no outside fact)**: `ClAtDecision` discharged from the state invariant `ClOK` (`Lemmas/ClInv.lean`) -/
+theorem C10_req_call_buffer_bounded_closed (cfg : Cfg) (d : Bytes) (c : Conn) (hs : (d.length : Int) < 18446744073709551616)
+    (hb : inBufLen c ≤ cfg.fieldLimitHard) (h0 : OwedPos c) (hcl : ClOK c) :
+    inBufLen (reqData cfg (some d) d.length c).1 ≤ cfg.fieldLimitHard ∧ OwedPos (reqData cfg (some d) d.length c).1 ∧
+    ClOK (reqData cfg (some d) d.length c).1 :=
+  reqData_invariant' cfg d c hs hb h0 hcl
+
+/-- **C10 over whole call histories (forall streams, chunkings, configurations; after every call)**: after ANY list of calls on a freshly created
+    connection parser - request and response chunks in any interleaving, open, req_close, close, tx_freed, any configuration and callback
+    policy - and after every prefix of it, the bytes each direction has set aside for an unfinished line stay within the configured hard field
+    limit. Only hypothesis: every chunk is shorter than 2^64 bytes. (Induction over the call list with the combined invariant `HistInv`,
+    `Lemmas/History*.lean`; stream gaps are not among the calls.) -/
+theorem C10_history_buffer_bounded (cfg : Cfg) (calls pre : List Call) (hsz : SizesOK calls) (hp : pre <+: calls) :
+    inBufLen (runCalls cfg {} pre) ≤ cfg.fieldLimitHard ∧ outBufLen (runCalls cfg {} pre) ≤ cfg.fieldLimitHard :=
+  history_buffer_bounded cfg {} calls pre (histInv_fresh cfg) hsz hp
+
+/-- non-vacuity: after an unterminated request line and an unterminated status line 5 and 10 bytes are set aside -/
+example :
+    let c := runCalls {} {} [.open, .req (b!"GET /"), .res (b!"HTTP/1.1 2")]
+    inBufLen c = 5 ∧ outBufLen c = 10 := by decide
 
 /-- **C10 (the constants are the reviewed ones)**: every constant the translator reads from the current source - among them the limits (field limits, repetition and folding caps, list sizes) -
     equals its reviewed snapshot (lean/HtpModel/Pinned); the model follows a regenerated constant, so this is what notices a changed one -/
